@@ -85,6 +85,18 @@ def support_cases(tier):
                 sts.append(('expr', ('bin', '|', a, b)))
                 sts.append(('implies', a, [('expr', b)]))
             two = [[('expr', a), ('expr', b)] for a, b in itertools.combinations(m, 2)]
+            # a multi-range domain (from an 'in' list) narrowed by a bound that falls inside, at the edge of,
+            # between and outside its ranges - in both statement orders
+            lo_, hi_ = gen.tmin(tp), gen.tmax(tp)
+            inl = [[[lo_, lo_ + 1], [lo_ + 3, lo_ + 5], hi_]] if tp[1] >= 3 else [[lo_, [lo_ + 2, hi_]]]
+            for rl in inl:
+                for rel in ('>', '>=', '<', '<='):
+                    for c in list(range(lo_, hi_ + 1)) + ['x']:
+                        bnd = ('expr', ('bin', rel, gen.P_, gen.X_ if c == 'x' else ('lit', c)))
+                        if tp[0] == 'int' and c == 'x':
+                            continue          # signed p against unsigned x: judged elsewhere
+                        two.append([('expr', ('in', gen.P_, rl)), bnd])
+                        two.append([bnd, ('expr', ('in', gen.P_, rl))])
             fields = [fld('p', tp), fld('x', tx, rnd=False)]
             Xs = []
             for xv in SC.xvals(tx):
